@@ -1112,6 +1112,7 @@ def check_C08(ctx: Ctx) -> None:
                 ctx.fail(f"{'delimited' if delim else 'non-delimited'} output read from a non-seekable source parses differently",
                          dict(bytes=out[delim].hex(), got=line[:300], want=pa[:300]))
     ctx.corr("HINT", reqs, resp)
+    _c08_positioned_and_plugin(ctx, r)
     # reference-encoder streams: first frame empty or starting with a row, every first-frame / first-row length
     for i in range(ctx.n(200, 2000)):
         g = gen.G(r)
@@ -1120,6 +1121,114 @@ def check_C08(ctx: Ctx) -> None:
         ctx.case(("ref", s["bytes"][:3].hex(), s["delimited"]), True)
         if len(s["bytes"]) >= 3 and h != ("1" if s["delimited"] else "0"):
             ctx.fail("valid stream misclassified", dict(bytes=s["bytes"].hex(), delimited=s["delimited"]))
+
+
+def _c08_positioned_and_plugin(ctx: Ctx, r) -> None:
+    import shutil
+    import tempfile
+
+    tmpdir = tempfile.mkdtemp(prefix="verif_c08_")
+    try:
+        for i in range(ctx.n(12, 120)):
+            cls = r.choice("TQ")
+            o = Opts(fs=250, lt=0, gen=True, star=True, name="n" * r.choice([0, 1, 2, 3, 9]), pn=16, pp=8, pd=8)
+            stmts = gen_fitting(r, cls, o, r.randint(1, 3))
+            for delim in (True, False):
+                o.delim = delim
+                line, b = impl.run_ser_frames(cls, o, stmts, is_sink=False)
+                if not line.endswith(" end"):
+                    continue
+                base = impl.run_par("flat", False, "seek", b)
+                ctx.case(("positioned", cls, o.token(), stmts_text(stmts)), True)
+                for label, got in _positioned_parses(b, tmpdir, r):
+                    ctx.dist["positioned_seekable"] += 1
+                    if got != base:
+                        ctx.fail(f"{'delimited' if delim else 'non-delimited'} output misread from {label}",
+                                 dict(bytes=b.hex(), source=label, got=got[:300], want=base[:300]))
+    finally:
+        shutil.rmtree(tmpdir, ignore_errors=True)
+    # the rdflib plugin, configured through options= or through a ready-made stream=, in both modes:
+    # what it writes must be classified as the mode that was asked for, and both modes must parse alike
+    import rdflib
+
+    from pyjelly.options import StreamParameters
+    from pyjelly.serialize.streams import QuadStream, SerializerOptions, TripleStream
+
+    for i in range(ctx.n(16, 160)):
+        cls = r.choice("TQ")
+        o = Opts(fs=250, lt=0, gen=False, star=False, name="n" * r.choice([0, 1, 2, 3, 9]), pn=16, pp=8, pd=8)
+        stmts = _rdf11_statements(r, cls, o, r.randint(1, 4))
+        store = _to_store(stmts, cls)
+        outs = {}
+        for delim in (True, False):
+            o.delim = delim
+            for how in ("options", "stream"):
+                so = o.real()
+                try:
+                    if how == "options":
+                        b = store.serialize(format="jelly", encoding="jelly", options=so)
+                    else:
+                        st = (TripleStream if cls == "T" else QuadStream).for_rdflib(so)
+                        b = store.serialize(format="jelly", encoding="jelly", stream=st)
+                except Exception as e:  # noqa: BLE001
+                    ctx.fail(f"rdflib plugin raised {type(e).__name__} writing a {'delimited' if delim else 'non-delimited'} stream via {how}=", dict(opts=o.describe()))
+                    continue
+                outs[(delim, how)] = b
+                ctx.dist[f"plugin:{how}:{'delimited' if delim else 'single'}"] += 1
+                if impl.run_hint(b[:3]) != ("1" if delim else "0"):
+                    ctx.fail(f"rdflib plugin ({how}=) asked for a {'delimited' if delim else 'non-delimited'} stream wrote the other framing",
+                             dict(header=b[:3].hex(), opts=o.describe(), bytes=b.hex()))
+        ctx.case(("plugin", cls, o.token(), stmts_text(stmts)), True)
+        for delim in (True, False):
+            a, b = outs.get((delim, "options")), outs.get((delim, "stream"))
+            if a is not None and b is not None and a != b:
+                ctx.fail("rdflib plugin writes different bytes for the same settings given as options= and as stream=",
+                         dict(options=a.hex(), stream=b.hex(), delimited=delim))
+        pa, pb = outs.get((True, "options")), outs.get((False, "options"))
+        if pa is not None and pb is not None and impl.run_par("flat", False, "seek", pa) != impl.run_par("flat", False, "seek", pb):
+            ctx.fail("rdflib plugin output in the two modes parses differently", dict(delimited=pa.hex(), single=pb.hex()))
+
+
+def _positioned_parses(b: bytes, tmpdir: str, r, k: int = 4):
+    """Parse `b` from buffered seekable sources that are already positioned at the start of the stream (the application
+    consumed its own preamble first), with the stream starting 0..4 bytes before a buffer boundary: yields (label, text)."""
+    import gzip
+    import os
+
+    from pyjelly.integrations.generic.parse import parse_jelly_flat
+
+    def run(src):
+        evs, err = [], None
+        try:
+            for ev in parse_jelly_flat(src):
+                evs.append(ev)
+        except Exception as e:  # noqa: BLE001
+            err = e
+        return events_text(evs) + " " + ("end" if err is None else "!" + type(err).__name__)
+
+    picks = []
+    for buffering in (2, 16, 4096, -1):
+        size = io.DEFAULT_BUFFER_SIZE if buffering == -1 else buffering
+        for back in r.sample(range(0, 5), k=min(k, 5)):
+            picks.append((buffering, max(1, size * r.choice([1, 1, 2]) - back)))
+        picks.append((buffering, r.randint(1, 3 * size)))
+    for buffering, pre in picks:
+        p = os.path.join(tmpdir, "pos.bin")
+        with open(p, "wb") as f:
+            f.write(bytes(r.randrange(256) for _ in range(min(pre, 64))) + b"\n" * max(0, pre - 64) + b)
+        with open(p, "rb", buffering=buffering) as f:
+            assert len(f.read(pre)) == pre
+            yield f"file(buffering={buffering}) positioned at {pre}", run(f)
+    pre = r.randint(1, 40)
+    src = io.BytesIO(b"\n" * pre + b)
+    src.seek(pre)
+    yield f"BytesIO positioned at {pre}", run(src)
+    pz = os.path.join(tmpdir, "pos.gz")
+    with gzip.open(pz, "wb") as f:
+        f.write(b"\n" * pre + b)
+    with gzip.open(pz, "rb") as f:
+        f.read(pre)
+        yield f"gzip positioned at {pre}", run(f)
 
 
 def check_C09(ctx: Ctx) -> None:
@@ -1187,6 +1296,11 @@ def check_C09(ctx: Ctx) -> None:
             if got is not None and got != base:
                 ctx.fail("gzip source parses differently from BytesIO", dict(bytes=b.hex()))
             ctx.dist["file+gzip"] += 1
+            if i % 4 == 0:
+                for label, got in _positioned_parses(b, tmpdir, r, k=2):
+                    ctx.dist["positioned_seekable"] += 1
+                    if got != base:
+                        ctx.fail(f"{label}: parses differently from an in-memory buffer of the same bytes", dict(bytes=b.hex(), source=label, got=got[:300], want=base[:300]))
     finally:
         import shutil
 
@@ -1269,7 +1383,10 @@ def check_C13(ctx: Ctx) -> None:
         # the logical type the stream resolves to
         from pyjelly.serialize.streams import GraphStream, QuadStream, TripleStream  # noqa: PLC0415
         stream, _ = impl.make_stream(cls, o)
-        want = (f"pt={phys} lt={int(stream.stream_types.logical_type)} n={o.pn} p={o.pp} d={o.pd} name={hx(o.name)} "
+        # a logical type the caller asked for is the one the reader must be told (independent of how the flow is inferred);
+        # only when none was requested (or an explicit flow object carries its own) is the stream's resolved type used
+        want_lt = o.lt if (o.flow is None and o.lt != 0) else int(stream.stream_types.logical_type)
+        want = (f"pt={phys} lt={want_lt} n={o.pn} p={o.pp} d={o.pd} name={hx(o.name)} "
                 f"gen={'true' if o.gen else 'false'} star={'true' if o.star else 'false'} v={2 if o.ns else 1} "
                 f"delim={'true' if o.delim else 'false'} nd={'true' if o.ns else 'false'}")
         if opt_line != want:
@@ -1658,6 +1775,35 @@ def check_C12(ctx: Ctx) -> None:
         ctx.dist["thread_runs"] += 1
         if v != alone:
             ctx.fail("serialization in a thread differs from serialization alone", dict(thread=t))
+    # (3b) the same under a 1 µs switch interval (a thread switch is possible between any two bytecodes), each thread
+    # writing its own mix of triple and quad streams
+    old_interval = sys.getswitchinterval()
+    sys.setswitchinterval(1e-6)
+    try:
+        results.clear()
+        rounds = ctx.n(3, 12)
+
+        def worker2(t):
+            sub = work[t % 3::3] or work
+            want = [alone[i] for i in range(t % 3, len(work), 3)] or alone
+            bad = 0
+            for _ in range(rounds):
+                if _c12_bytes(sub) != want:
+                    bad += 1
+            results[t] = bad
+
+        ths = [threading.Thread(target=worker2, args=(t,)) for t in range(6)]
+        for t in ths:
+            t.start()
+        for t in ths:
+            t.join()
+    finally:
+        sys.setswitchinterval(old_interval)
+    for t, bad in results.items():
+        ctx.dist["thread_runs_fine_grained"] += rounds
+        if bad:
+            ctx.fail("serialization in a thread (1 µs switch interval) differs from serialization alone", dict(thread=t, bad_rounds=bad, rounds=rounds))
+    _c12_rdflib_parsers(ctx, r)
     # (4) fresh processes with different hash seeds
     digest = hashlib.sha256(b"".join(len(b).to_bytes(4, "big") + b for b in alone)).hexdigest()
     code = ("import sys; sys.path.insert(0, %r); import props, hashlib; "
@@ -1678,6 +1824,58 @@ def check_C12(ctx: Ctx) -> None:
     ctx.extra["static_scan"] = dict(shared_mutable_bindings=hits["bindings"], mutation_sites=hits["mutations"])
     if hits["mutations"]:
         ctx.fail("a module- or class-level mutable object of pyjelly is mutated at run time", dict(sites=hits["mutations"]))
+
+
+def _c12_rdflib_parsers(ctx: Ctx, r) -> None:
+    """Two or three rdflib parsers alive at once, on streams of the same physical type and EQUAL options, stepped in a
+    random interleaving: each must yield what it yields alone (flat and grouped; TRIPLES / QUADS / GRAPHS)."""
+    import rimpl
+    from pyjelly.integrations.rdflib.parse import parse_jelly_flat as rflat, parse_jelly_grouped as rgrouped
+
+    def alone_flat(b):
+        return [rimpl.rdflib_events_text([e]) for e in rflat(io.BytesIO(b))]
+
+    def alone_grouped(b):
+        return [sorted(rimpl.store_quads(g)) for g in rgrouped(io.BytesIO(b))]
+
+    for trial in range(ctx.n(12, 120)):
+        cls = r.choice("TQGG")
+        o = Opts(fs=r.choice([1, 2, 250]), lt=0, gen=False, star=False, delim=True, pn=16, pp=8, pd=8)
+        files = []
+        for j in range(r.choice([2, 2, 3])):
+            stmts = _rdf11_statements(r, cls, o, r.randint(2, 6))
+            if j and r.random() < 0.3:
+                stmts = files[0][0]
+            line, b = impl.run_ser_frames(cls, o, stmts, is_sink=False)
+            if line.endswith(" end") and b:
+                files.append((stmts, b))
+        if len(files) < 2:
+            continue
+        for mode, mk, solo in (("flat", lambda b: (rimpl.rdflib_events_text([e]) for e in rflat(io.BytesIO(b))), alone_flat),
+                               ("grouped", lambda b: (sorted(rimpl.store_quads(g)) for g in rgrouped(io.BytesIO(b))), alone_grouped)):
+            try:
+                want = [solo(b) for _, b in files]
+            except Exception as e:  # noqa: BLE001
+                ctx.fail(f"rdflib {mode} parser raised {type(e).__name__} on pyjelly's own output", dict(bytes=files[0][1].hex()))
+                continue
+            gens = [mk(b) for _, b in files]
+            outs = [[] for _ in files]
+            live = list(range(len(files)))
+            while live:
+                k = r.choice(live)
+                try:
+                    outs[k].append(next(gens[k]))
+                except StopIteration:
+                    live.remove(k)
+                except Exception as e:  # noqa: BLE001
+                    outs[k].append("!" + type(e).__name__)
+                    live.remove(k)
+            ctx.case(("rdflib-parsers", mode, cls, tuple(b.hex() for _, b in files)), True)
+            ctx.dist[f"interleaved_rdflib_parsers:{mode}:{cls}"] += 1
+            for k, (got, w) in enumerate(zip(outs, want)):
+                if got != w:
+                    ctx.fail(f"rdflib {mode} parser of a {cls} stream is affected by another parser active at the same time",
+                             dict(bytes=[b.hex() for _, b in files], index=k, got=str(got)[:400], want=str(w)[:400]))
 
 
 def _c12_static_scan() -> dict:
@@ -1828,6 +2026,59 @@ def check_C18(ctx: Ctx) -> None:
         sig = "C18-in-statement-eviction" if (c["overflows"] and model_by_req[c["req"]] == c["resp"]) else None
         ctx.fail(f"written file decodes to different data ({verdict})",
                  dict(request=c["req"], referee=line[:1200], want=want[:1200]), known=sig)
+    _c18_rdflib(ctx, r)
+
+
+def _c18_rdflib(ctx: Ctx, r) -> None:
+    """The rdflib integration under tiny datatype / prefix tables: generalized statements fed as rdflib tuples, with
+    explicit xsd:string literals (which need no datatype entry) next to as many other datatypes as the table holds."""
+    import rimpl
+
+    XS = rimpl.XSD_STRING
+    cases = []
+    for i in range(ctx.n(120, 1200)):
+        cls = r.choice("TQ")
+        pd = r.choice([1, 2, 3])
+        pp = r.choice([1, 2, 8])
+        o = Opts(fs=r.choice([1, 3, 250]), lt=0, gen=True, star=False, delim=True, pn=16, pp=pp, pd=pd)
+        dts = r.sample(["urn:dt:1", "urn:dt:2", "urn:dt:3", "http://www.w3.org/2001/XMLSchema#integer"], 3)
+        stmts = []
+        for j in range(r.randint(1, 4)):
+            k = min(2, pd) if r.random() < 0.7 else min(3, pd + r.choice([0, 1]))
+            lits = [Literal(r.choice(["a", "0", "", "x y"]), datatype=d) for d in r.sample(dts, k)]
+            slots = [Literal(r.choice(["a", "s", ""]), datatype=XS)] + lits
+            while len(slots) < 3:
+                slots.append(IRI("http://c18/" + r.choice("abc")))
+            r.shuffle(slots)
+            st = slots[:3]
+            if not isinstance(st[1], (IRI, Literal)):
+                continue
+            stmts.append(Triple(*st) if cls == "T" else Quad(*st, r.choice([DefaultGraph, IRI("http://c18/g")])))
+        if not stmts:
+            continue
+        data = [tuple(rimpl.to_rdflib(t) for t in st) for st in stmts]
+        try:
+            req, resp, b = rimpl.run_serr(cls, o, data)
+        except Exception as e:  # noqa: BLE001
+            ctx.fail(f"rdflib serializer harness raised {type(e).__name__}: {e}", dict(statements=stmts_text(stmts)[:400]))
+            continue
+        cases.append(dict(cls=cls, o=o, stmts=stmts, req=req, resp=resp, bytes=b,
+                          overflows=not all(gen.fits([x], o.pn, o.pp, o.pd) for x in stmts)))
+    model = ctx.corr("SERR", [c["req"] for c in cases], [c["resp"] for c in cases])
+    todo = [c for c in cases if c["resp"].startswith("ok ") and c["resp"].endswith(" end") and c["bytes"]]
+    got = __import__("common").run_driver([spec_line(c["bytes"], True) for c in todo])
+    model_by_req = {c["req"]: m for c, m in zip(cases, model)}
+    for c in cases:
+        ctx.dist["rdflib:" + ("overflowing" if c["overflows"] else "fitting")] += 1
+        ctx.case(("rdflib", c["req"]), c["overflows"])
+    for c, line in zip(todo, got):
+        verdict, evs, _ = parse_spec_response(line)
+        want = " ".join("S" + stmt_text(x) for x in expected_events(c["stmts"], c["cls"]))
+        if verdict == "ok" and evs == want:
+            continue
+        sig = "C18-in-statement-eviction" if (c["overflows"] and model_by_req[c["req"]] == c["resp"]) else None
+        ctx.fail(f"file written by the rdflib serializer decodes to different data ({verdict})",
+                 dict(request=c["req"][:1500], referee=line[:1200], want=want[:1200]), known=sig)
 
 
 def check_C20(ctx: Ctx) -> None:
@@ -1860,8 +2111,21 @@ def check_C20(ctx: Ctx) -> None:
                     st = st[: r.randrange(0, len(st))]
             if cls == "G":
                 gid = g.term("g") if not (bad and cause == "unsupported" and r.random() < 0.3) else UNSUPPORTED
-                ops.append(("g", gid, [tuple(st)]))
-                acc = [Quad(*st, gid)] if (not bad and gid is not UNSUPPORTED and len(st) == 3) else None
+                # several triples per graph: the ones before a rejected triple were accepted (and possibly already cut
+                # into frames); the ones after it were never offered
+                before, tp = [], None
+                for _ in range(r.choice([0, 0, 1, 2, 4])):
+                    tp = g.triple(tp)
+                    before.append(tuple(tp))
+                after = [tuple(g.triple(None)) for _ in range(r.choice([0, 0, 1]))]
+                ops.append(("g", gid, before + [tuple(st)] + after))
+                if gid is UNSUPPORTED:
+                    acc = None
+                elif bad:
+                    acc = [Quad(*x, gid) for x in before] or None
+                    bad_partial = bool(before)
+                else:
+                    acc = [Quad(*x, gid) for x in before + [tuple(st)] + after]
             else:
                 ops.append(("q" if cls == "Q" else "t", tuple(st)))
                 acc = [(Quad if cls == "Q" else Triple)(*st)] if not bad else None
@@ -1907,10 +2171,12 @@ def check_C20(ctx: Ctx) -> None:
             if "!" in t:
                 if first_rej is None:
                     first_rej = idx
+                if op[0] == "g" and acc:
+                    acc_real += acc  # triples of this graph accepted before the rejected one
             elif acc:
                 acc_real += acc
             else:
-                acc_real += [Quad(*op[2][0], op[1])] if op[0] == "g" else [(Quad if op[0] == "q" else Triple)(*op[1])]
+                acc_real += [Quad(*x, op[1]) for x in op[2]] if op[0] == "g" else [(Quad if op[0] == "q" else Triple)(*op[1])]
         refuses = first_rej is not None and all("!" in t for t in data_toks[first_rej:])
         verdict, evs, _ = parse_spec_response(sline)
         want_st = [gen.normalize_stmt(s) for s in acc_real]
@@ -2036,6 +2302,29 @@ def check_C17(ctx: Ctx) -> None:
             b = _hostile(r)
             kind = "hostile"
         inputs.append((kind, r.choice(["flat", "flat", "grouped"]) + ":" + r.choice(["seek", "seek", "raw:1", "raw:2", "raw:3", "raw:4096"]), b))
+    # sizes "declared" inside lexical forms: a numeric literal whose exponent would expand to a huge canonical form
+    # (the rdflib integration must keep the lexical form as written), through every rdflib entry point
+    xsd = "http://www.w3.org/2001/XMLSchema#"
+    for dt, lex in (("decimal", "1E+60000000"), ("decimal", "1E-60000000"), ("double", "1E+60000000"), ("integer", "1" + "0" * 2000),
+                    ("float", "9e99999999"), ("decimal", "123456789E+99999999")):
+        rows = [jelly.RdfStreamRow(options=jelly.RdfStreamOptions(physical_type=1, max_name_table_size=8, max_prefix_table_size=8,
+                                                                  max_datatype_table_size=8, version=1)),
+                jelly.RdfStreamRow(datatype=jelly.RdfDatatypeEntry(id=1, value=xsd + dt)),
+                jelly.RdfStreamRow(triple=jelly.RdfTriple(s_bnode="a", p_bnode="b", o_literal=jelly.RdfLiteral(lex=lex, datatype=1)))]
+        b = refenc.frames_to_bytes([jelly.RdfStreamFrame(rows=rows)], True)
+        for e in ("rflat", "rgrouped", "rgraph", "flat"):
+            inputs.append(("hostile", e + ":seek", b))
+    # a small share of the random / mutated / hostile inputs also goes through the rdflib entry points
+    for kind, entry, b in r.sample(inputs, min(len(inputs), ctx.n(150, 1500))):
+        inputs.append((kind, r.choice(["rflat", "rgrouped", "rgraph"]) + ":" + entry.split(":", 1)[1], b))
+    # long runs of leading empty frames in front of a small valid frame (linear work, constant stack)
+    small = refenc.frames_to_bytes([jelly.RdfStreamFrame(rows=[jelly.RdfStreamRow(options=jelly.RdfStreamOptions(
+        physical_type=1, max_name_table_size=8, max_prefix_table_size=8, max_datatype_table_size=8, version=1)),
+        jelly.RdfStreamRow(triple=jelly.RdfTriple(s_bnode="a", p_bnode="b", o_bnode="c"))])], True)
+    for count in ([3000, 60000] if ctx.quick() else [3000, 60000, 400000]):
+        inputs.append(("hostile", "flat:seek", b"\x00" * count + small))
+        inputs.append(("hostile", "flat:raw:4096", b"\x00" * count + small))  # (grouped would rightly build one sink per real frame)
+        inputs.append(("hostile", "rflat:seek", b"\x00" * count + small))
     # real code in a watchdogged subprocess with an address-space cap
     cap = 3 << 30
     payload = "".join(f"{e} {b.hex()}\n" for _, e, b in inputs)
@@ -2081,6 +2370,12 @@ def check_C17(ctx: Ctx) -> None:
         else:
             base_rss = max(base_rss, rss)
         e_name, e_src = entry.split(":", 1)
+        if e_name.startswith("r"):
+            ctx.dist["rdflib_entry_points"] += 1
+            continue  # rdflib entry points: safety oracle only here (their results are compared in C15 / C02)
+        if len(b) > 20000:
+            ctx.dist["long_inputs_safety_only"] += 1
+            continue
         if raw and _declares_huge_frame(b):
             # BufferedReader.read(n) for n near 2^63 raises OverflowError / tries to allocate: the byte-source model has no
             # notion of allocation, so these inputs are compared for no-crash/no-hang only
